@@ -1102,6 +1102,37 @@ class TrPhoenix(Tr):
         return super().stmt0(s, ind)
 
 
+class TrOrient(Tr):
+    """the `voxel_order` checks of `reorder_voxels`: strings are lists of characters, `s.upper()` is `Orient.upperC` on every
+    character, `c in 'LRAPSI'` membership in the character list; the loop `for idx, x in enumerate(L): if c(x): del L[idx]`
+    deletes from the list it iterates over — Python's list iterator then skips the element after a deleted one, which is
+    `pyDelWhileIter`"""
+
+    def e(self, n):
+        if isinstance(n, ast.Constant) and isinstance(n.value, str):
+            return '[%s]' % ', '.join("'%s'" % c for c in n.value)
+        if isinstance(n, ast.List) and n.elts and all(isinstance(x, ast.Constant) and isinstance(x.value, str) for x in n.elts):
+            return '[%s]' % ', '.join(self.e(x) for x in n.elts)
+        if isinstance(n, ast.Call) and isinstance(n.func, ast.Attribute) and n.func.attr == 'upper' and not n.args:
+            return '((%s).map Orient.upperC)' % self.e(n.func.value)
+        return super().e(n)
+
+    def stmt0(self, s, ind):
+        if isinstance(s, ast.For) and not s.orelse and isinstance(s.iter, ast.Call) and self.src(s.iter.func) == 'enumerate' \
+                and len(s.iter.args) == 1 and isinstance(s.iter.args[0], ast.Name) and isinstance(s.target, ast.Tuple) \
+                and len(s.target.elts) == 2 and len(s.body) == 1 and isinstance(s.body[0], ast.If) and not s.body[0].orelse \
+                and len(s.body[0].body) == 1 and isinstance(s.body[0].body[0], ast.Delete):
+            L = s.iter.args[0].id
+            idx, x = s.target.elts[0].id, s.target.elts[1].id
+            d = s.body[0].body[0]
+            if len(d.targets) == 1 and self.src(d.targets[0]) == '%s[%s]' % (L, idx):
+                self.declared.append({x})
+                cond = self.b(s.body[0].test)
+                self.declared.pop()
+                return ['%s%s := pyDelWhileIter (fun %s => %s) %s' % (ind, L, x, cond, L)]
+        return super().stmt0(s, ind)
+
+
 class TrChkOrder(Tr):
     """the thorough check of `_chk_order`: `_files_info[i][1]` is the sorting tuple (vector, time, position)"""
     PROJ = {0: '.1', 1: '.2.1', 2: '.2.2'}
@@ -1243,6 +1274,17 @@ def pyGetKey {β : Type} : Option β → Except PyErr β
   | some b => .ok b
   | none => .error PyErr.keyError
 
+/-- `for idx, x in enumerate(L): if p(x): del L[idx]` — the list is edited while it is iterated over: after a deletion the list
+    has moved left under the iterator, so the element that followed the deleted one is not visited -/
+def pyDelWhileIter {β : Type} (p : β → Bool) : List β → List β
+  | [] => []
+  | a :: rest =>
+    if p a then
+      match rest with
+      | [] => []
+      | nxt :: rest' => nxt :: pyDelWhileIter p rest'
+    else a :: pyDelWhileIter p rest
+
 /-- `a // b` of naturals: `ZeroDivisionError` for a zero divisor -/
 def pyFloorDiv (a b : Nat) : Except PyErr Nat := if b == 0 then .error PyErr.zeroDivision else .ok (a / b)
 
@@ -1268,6 +1310,7 @@ GROUP_OF = {
     'copy_slice_dest': 'values', 'copy_slice_vals': 'values', 'get_changed_class': 'values',
     'copy_slice': 'subset', 'copy_sample': 'subset', 'get_subset_key': 'subset',
     'reclassify': 'insert', 'insert_dispatch': 'insert', 'change_class': 'insert', 'insert_slice': 'insert', 'insert_non_slice': 'insert', 'insert_sample': 'insert',
+    'check_voxel_order': 'orient',
     'parse_phoenix_line': 'phoenix',
     'header_slice_times': 'header', 'header_dim_info': 'header',
     'chk_equal': 'stackadd', 'chk_close': 'stackadd', 'chk_congruent': 'stackadd', 'add_dcm': 'stackadd',
@@ -1290,6 +1333,7 @@ GROUP_IMPORTS = {
     'stackadd': ['DcmVerif.Generated.PyPrelude', 'DcmVerif.Model.StackAdd'],
     'header': ['DcmVerif.Generated.PyPrelude'],
     'phoenix': ['DcmVerif.Generated.PyPrelude', 'DcmVerif.Model.Phoenix'],
+    'orient': ['DcmVerif.Generated.PyPrelude', 'DcmVerif.Model.Orient'],
 }
 GEN_DIR = os.environ.get('GEN_CODE_DIR', os.path.normpath(os.path.join(HERE, '..', 'lean', 'DcmVerif', 'Generated')))
 
@@ -1319,7 +1363,7 @@ def translate():
     def emit(name, sig, fn_body, tr, doc, prologue=(), run='do'):
         out.cur = group_of(name)
         try:
-            tr.mutable = tr.assigned_more_than_once(fn_body) | set(getattr(tr, 'pre_declared', ()))
+            tr.mutable = tr.assigned_more_than_once(fn_body) | set(getattr(tr, 'pre_declared', ())) | set(getattr(tr, 'force_mutable', ()))
             tr.declared = [set(getattr(tr, 'pre_declared', ()))]
             lines = ['  ' + l for l in prologue] + tr.block(fn_body, '  ')
             out.append('/-- %s -/' % doc)
@@ -1977,6 +2021,27 @@ def translate():
              '`_parse_phoenix_line` (extract.py), translated statement by statement over lists of characters; the string methods and '
              'number conversions are the functions of `Model/Phoenix.lean`',
              prologue=['let mut line := line0'], run='Id.run do')
+    # ---- reorder_voxels: the checks of the voxel_order string (group `orient`)
+    f = find_func(ds, None, 'reorder_voxels')
+    blk = None
+    if f is not None:
+        names = [ast.unparse(st)[:40] for st in f.body]
+        i0 = next((i_ for i_, st in enumerate(f.body) if ast.unparse(st).startswith('voxel_order = voxel_order.upper()')), None)
+        i1 = next((i_ for i_, st in enumerate(f.body) if isinstance(st, ast.If) and 'len(dcm_axes)' in ast.unparse(st.test)), None)
+        if i0 is not None and i1 is not None and i0 < i1:
+            blk = f.body[i0:i1 + 1]
+    if blk is None:
+        missing.append('check_voxel_order: statements voxel_order = voxel_order.upper() … if len(dcm_axes) != 0 not found')
+    else:
+        tr = TrOrient({}, {})
+        tr.ret_unit = True
+        tr.pre_declared = {'voxel_order'}
+        tr.force_mutable = {'dcm_axes'}
+        tr.list_vars = {'dcm_axes'}
+        emit('check_voxel_order', '(voxel_order0 : List Char) : Except PyErr Unit', blk + [ast.parse('return 0').body[0]], tr,
+             'the checks `reorder_voxels` applies to its `voxel_order` argument (dcmstack.py): upper-cased, three characters, each one '
+             'of L R A P S I, and every anatomical axis named (the axes list is edited while it is iterated over)',
+             prologue=['let mut voxel_order := voxel_order0'])
     # ---- check_valid
     f = find_func(dm, 'DcmMetaExtension', 'check_valid')
     if f is None:
